@@ -579,14 +579,22 @@ def key_of(c):
                        sorted(c["p"].items())], sort_keys=True, default=str)
 
 
-def build_all(ctx):
-    with concurrent.futures.ThreadPoolExecutor(max_workers=3) as ex:
+def build_all(ctx, with_coq=False):
+    """the two C++ builds (70-100 s each, one TU) run in threads while the main thread does the Coq
+    build (when asked) and the extraction, which share vlib's Coq lock"""
+    with concurrent.futures.ThreadPoolExecutor(max_workers=2) as ex:
         f_san = ex.submit(ctx.cpp, "harness/c01.cpp", "c01_san", (), True, False, ["-O0", "-g0"])
         f_dbg = ex.submit(ctx.cpp, "harness/c01.cpp", "c01_dbg", (), False, True, ["-O0"])
-        f_mod = ex.submit(ctx.extract)
         errs = []
+        coq = mexe = None
+        try:
+            if with_coq:
+                coq = ctx.coq()
+            mexe = ctx.extract()
+        except vlib.BuildError as e:
+            errs.append(e)
         res = []
-        for f in (f_san, f_dbg, f_mod):
+        for f in (f_san, f_dbg):
             try:
                 res.append(f.result())
             except vlib.BuildError as e:
@@ -594,14 +602,13 @@ def build_all(ctx):
                 res.append(None)
         if errs:
             raise errs[0]
-    return {"san": res[0], "dbg": res[1]}, res[2]
+    return {"san": res[0], "dbg": res[1]}, mexe
 
 
 def run(ctx):
     rng = ctx.rng
-    coq = ctx.coq()
-    t_coq = ctx.elapsed()
-    exes, mexe = build_all(ctx)
+    t_coq = 0.0
+    exes, mexe = build_all(ctx, with_coq=True)
     t_build = ctx.elapsed()
     quick = ctx.quick
     stats = {"f7_seen": 0, "f7_silent": 0, "nonfinite_cases": 0, "numeric_exc": 0}
@@ -612,7 +619,7 @@ def run(ctx):
     cases += random_cases(rng, 100000, 600 if quick else 6000, 50)
     nrandom = len(cases) - ncorpus - nboundary
     model, results = evaluate(ctx, exes, mexe, cases, stats)
-    ctx.note("phases (s): coq %.0f, C++/OCaml builds %.0f, sweep %.0f" % (t_coq, t_build - t_coq, ctx.elapsed() - t_build))
+    ctx.note("phases (s): Coq + extraction, with both C++ builds in parallel %.0f; sweep %.0f" % (t_build, ctx.elapsed() - t_build))
     n = 2 * len(cases)
     if ctx.is_unshown() and not ctx.has_violation():
         n += 2 * search_phase(ctx, exes, mexe, rng, stats, 12 if quick else 40)
